@@ -57,8 +57,15 @@ def stepC07 (s : DSt) (op : String) (got : String) : StepResult DSt :=
       let r := refOf s.cap0 s.hist
       let isNew := !memb n r.order
       let hist' := Ev.ins n w fresh s.now :: s.hist
-      let sz := got.toNat?
-      let capFail : List SpecFail :=
+      -- " hs=0:<i>" after the size: the answer of an EARLIER hit of this history (kept uncopied by the
+      -- harness, as a face's send queue keeps it) is no longer the packet that was found
+      let gotParts := got.splitOn " "
+      let sz := (gotParts.headD "").toNat?
+      let hitFail : List SpecFail :=
+        match gotParts.find? (·.startsWith "hs=0") with
+        | some t => [⟨"find-sound", "answer-changed-later", s!"after inserting {n.toText} the answer of an earlier cache hit (no. {(t.drop 5).toString}) no longer holds the packet that was found (its bytes belong to the store and were reused)"⟩]
+        | none => []
+      let capFail : List SpecFail := hitFail ++
         match sz with
         | some z => if isNew && decide (z > r.cap) then
             [⟨"capacity", s!"cap={r.cap}", s!"after inserting the new name {n.toText} the store reports {z} entries, capacity is {r.cap}"⟩] else []
